@@ -24,3 +24,53 @@ func (db *DB) VerifBatchSet(entries []VerifEntry) error {
 	}
 	return db.batchSet(es)
 }
+
+// VerifTargets returns what levelTargets computes right now: the base level, the total size of
+// every level and the target size of every level.
+func (db *DB) VerifTargets() (base int, sizes []int64, targetSz []int64) {
+	t := db.lc.levelTargets()
+	for _, lh := range db.lc.levels {
+		sizes = append(sizes, lh.getTotalSize())
+	}
+	return t.baseLevel, sizes, t.targetSz
+}
+
+// VerifDoCompactStale runs one production compaction like VerifDoCompact, but with the base level
+// a compactor captured earlier: runCompactor computes the level targets in pickCompactLevels and
+// hands them to doCompact, and other compactors can run in between.
+func (db *DB) VerifDoCompactStale(cid, level int, score, adjusted float64, base int) error {
+	t := db.lc.levelTargets()
+	t.baseLevel = base
+	p := compactionPriority{level: level, score: score, adjusted: adjusted, t: t}
+	err := db.lc.doCompact(cid, p)
+	if err == errFillTables {
+		return ErrVerifNoFill
+	}
+	return err
+}
+
+// VerifCStatus projects compactStatus: per level the registered key ranges ("inf", "empty" or the
+// user keys "left..right"), and the ids of the tables under compaction.
+func (db *DB) VerifCStatus() (ranges [][]string, tables []uint64) {
+	cs := db.lc.cstatus
+	cs.RLock()
+	defer cs.RUnlock()
+	for _, l := range cs.levels {
+		rs := []string{}
+		for _, r := range l.ranges {
+			switch {
+			case r.inf:
+				rs = append(rs, "inf")
+			case r.isEmpty():
+				rs = append(rs, "empty")
+			default:
+				rs = append(rs, string(y.ParseKey(r.left))+".."+string(y.ParseKey(r.right)))
+			}
+		}
+		ranges = append(ranges, rs)
+	}
+	for id := range cs.tables {
+		tables = append(tables, id)
+	}
+	return ranges, tables
+}
